@@ -2479,7 +2479,12 @@ BUFR_Dataset  *bufr_decode_message_subsets( BUFR_Message *msg, BUFR_Tables *tabl
       bufr_add_descriptor_to_sequence( bsq, cb );
       }
 
-   if (bufr_expand_sequence( bsq, OP_EXPAND_DELAY_REPL | OP_ZDRC_SKIP, dts->tmplte->tables ) < 0) return NULL;
+   if (bufr_expand_sequence( bsq, OP_EXPAND_DELAY_REPL | OP_ZDRC_SKIP, dts->tmplte->tables ) < 0)
+      {
+      bufr_free_sequence( bsq );
+      bufr_free_dataset( dts );
+      return NULL;
+      }
    ddo = bufr_create_BufrDDOp( msg->enforce );
    bufr_apply_Tables( ddo, bsq,  dts->tmplte, NULL, &errcode ); 
    bufr_free_BufrDDOp( ddo );
